@@ -116,7 +116,15 @@ class ContinueParentStageHandler(StabilizeHandler[ContinueParentStage]):
                 stage.name,
                 stage.id,
             )
-            self.set_stage_status(stage, WorkflowStatus.TERMINAL)
+            # A child that was canceled (the workflow is being canceled) cancels
+            # its parent; only a child that failed makes the parent fail. Marking
+            # the parent TERMINAL here would turn a canceled workflow into a
+            # failed one when this message overtakes the parent's CancelStage.
+            halted = [s.status for s in before_stages if s.status in HALT_STATUSES]
+            child_halt_status = (
+                WorkflowStatus.CANCELED if all(h == WorkflowStatus.CANCELED for h in halted) else WorkflowStatus.TERMINAL
+            )
+            self.set_stage_status(stage, child_halt_status)
             stage.end_time = self.current_time_millis()
             # Use atomic transaction to ensure state and message are committed together
             self.txn_helper.execute_atomic(
@@ -284,7 +292,15 @@ class ContinueParentStageHandler(StabilizeHandler[ContinueParentStage]):
                 stage.name,
                 stage.id,
             )
-            self.set_stage_status(stage, WorkflowStatus.TERMINAL)
+            # A child that was canceled (the workflow is being canceled) cancels
+            # its parent; only a child that failed makes the parent fail. Marking
+            # the parent TERMINAL here would turn a canceled workflow into a
+            # failed one when this message overtakes the parent's CancelStage.
+            halted = [s.status for s in after_stages if s.status in HALT_STATUSES]
+            child_halt_status = (
+                WorkflowStatus.CANCELED if all(h == WorkflowStatus.CANCELED for h in halted) else WorkflowStatus.TERMINAL
+            )
+            self.set_stage_status(stage, child_halt_status)
             stage.end_time = self.current_time_millis()
             self.txn_helper.execute_atomic(
                 stage=stage,
